@@ -48,6 +48,56 @@ static Verdict run_c06_fault(const Case &c, const EncCase &e, const bytes &base)
   return v;
 }
 
+// error paths, input side: the encrypted file becomes unreadable (EIO) at some offset, for good or for one read.
+// Whatever the code makes of the error, a wrong key is not accepted and nothing is written.
+static Verdict run_c06_rderr(const Case &c, const EncCase &e, const bytes &base)
+{
+  Verdict v;
+  bytes w = c.getb("wrongkey");
+  w.resize(16);
+  v.classes.push_back("kind=rderr");
+  if (w == e.key)
+    return v;
+  size_t body = 48 + 20 * (size_t)e.T;
+  std::vector<long> offs = {0, 8, 9, 10, 47, 48, 73, 74, (long)body - 1, (long)body, (long)body + 1, (long)body + 16, (long)base.size() - 17, (long)base.size() - 16, (long)base.size() - 1, (long)base.size()};
+  for (long k = 0; k < 3; k++)
+    offs.push_back((long)(c.geti("roff") * (k + 1) * 7919 % (long)(base.size() + 1)));
+  for (long chunk_i = 1; body + chunk_i * e.chunk < base.size() && chunk_i < 6; chunk_i++)
+    offs.push_back((long)(body + chunk_i * e.chunk));
+  for (int dec = 0; dec < 2; dec++)
+    for (int once = 0; once < 2; once++)
+      for (long at : offs)
+      {
+        if (at < 0 || at > (long)base.size())
+          continue;
+        FaultRun fr = run_faulted(dec, base, w, e, -2, at, once);
+        v.weight++;
+        if (fr.st == CH_TIMEOUT)
+          continue;
+        if (fr.st != CH_OK)
+        {
+          v.classes.push_back("rderr:abnormal_end(accepted)");
+          continue;
+        }
+        v.classes.push_back(once ? "rderr:transient" : "rderr:persistent");
+        v.more_distinct.push_back(fnv64(hex(w) + (dec ? "d" : "v") + (once ? "o" : "p") + std::to_string(at), fnv64(base.data(), base.size())));
+        std::string m;
+        if (fr.o.ret)
+          m = std::string(dec ? "decryption" : "verification") + " succeeded with a wrong key";
+        else if (fr.o.out_writes || !fr.o.out.empty())
+          m = std::string(dec ? "decryption" : "verification") + " with a wrong key wrote " + std::to_string(fr.o.out_written_bytes) + " bytes to the output";
+        if (!m.empty())
+        {
+          Verdict fl = Verdict::fail(m + " when reading the input failed with EIO " + (once ? "once" : "from then on") + " at offset " + std::to_string(at) + " of the " + std::to_string(base.size()) + "-byte file [key " + hex(w) + ", right key " + hex(e.key) + ", T=" + std::to_string(e.T) + "]");
+          fl.nontrivial = true;
+          fl.classes = v.classes;
+          return fl;
+        }
+      }
+  v.nontrivial = !v.more_distinct.empty();
+  return v;
+}
+
 static Verdict run_c06(const Case &c)
 {
   Verdict v;
@@ -55,6 +105,8 @@ static Verdict run_c06(const Case &c)
   bytes base = ref::encrypt_file(e.P, fparams(e));
   if (c.get("kind", "one") == "allocfault")
     return run_c06_fault(c, e, base);
+  if (c.get("kind", "one") == "rderr")
+    return run_c06_rderr(c, e, base);
   std::vector<bytes> keys;
   std::vector<std::string> labels;
   std::string kind = c.get("kind", "one");
@@ -153,6 +205,15 @@ static Case gen_c06()
     c.setb("wrongkey", w);
     return c;
   }
+  if (g::coin(1))
+  {
+    c.set("kind", "rderr");
+    bytes w = c.getb("key");
+    w[(size_t)g::range(0, 16)] ^= (uint8_t)(1 << g::range(0, 8));
+    c.setb("wrongkey", w);
+    c.seti("roff", g::range(1, 100000));
+    return c;
+  }
   if (k < 40)
     c.set("kind", "neighbours");
   else
@@ -206,6 +267,14 @@ static void fixed_c06(Ctx &ctx)
         w[3] ^= 0x10;
         c.set("kind", "allocfault");
         c.setb("wrongkey", w);
+        eval_fixed(*p, ctx, c);
+      }
+      {
+        bytes w = c.getb("key");
+        w[9] ^= 0x01;
+        c.set("kind", "rderr");
+        c.setb("wrongkey", w);
+        c.seti("roff", 1000 + cm * 10 + hm);
         eval_fixed(*p, ctx, c);
       }
     }
